@@ -453,6 +453,7 @@ struct DefRes {
     relations_judged: usize,
     division_claims: usize,
     long_runs: usize,
+    logged_evals: usize,
 }
 
 #[derive(Clone)]
@@ -468,7 +469,7 @@ fn one(scratch: &std::path::Path, seed: u64, i: usize, keys: usize, pairs: usize
     let path = scratch.join(format!("def{i}.circom"));
     let (src, curve_idx) = gen_source(seed, i);
     let prelude = gen_prelude(seed, i);
-    let mut res = DefRes { evals: 0, usable: false, reads: 0, cut_points: 0, pair_cuts: 0, stalls_fired: 0, backsteps_fired: 0, wall_reads: 0, value_claims: 0, degree_claims: 0, violation: None, sim_ns: 0, facts_lost_by_cut: 0, pass_claims: 0, relations_judged: 0, division_claims: 0, long_runs: 0 };
+    let mut res = DefRes { evals: 0, usable: false, reads: 0, cut_points: 0, pair_cuts: 0, stalls_fired: 0, backsteps_fired: 0, wall_reads: 0, value_claims: 0, degree_claims: 0, violation: None, sim_ns: 0, facts_lost_by_cut: 0, pass_claims: 0, relations_judged: 0, division_claims: 0, long_runs: 0, logged_evals: 0 };
     let mut rk = Rng::new(seed).sub_n("C20-sched", i as u64);
     for _ki in 0..keys {
         let key = rk.bytes16();
@@ -636,7 +637,36 @@ pub fn run(env: &Env) -> i32 {
             });
         }
     });
-    let results: Vec<DefRes> = slots.into_iter().map(|m| m.into_inner().unwrap().unwrap()).collect();
+    let mut results: Vec<DefRes> = slots.into_iter().map(|m| m.into_inner().unwrap().unwrap()).collect();
+    // second phase: an eighth of the definitions again with every log record built and
+    // formatted (what `RUST_LOG=trace` does); a cut run must still complete and claim nothing wrong
+    {
+        crate::libtier::set_log_level(true);
+        let subset: Vec<usize> = (0..n).filter(|i| i % 8 == 3).collect();
+        let next = AtomicUsize::new(0);
+        let slots: Vec<Mutex<Option<DefRes>>> = (0..subset.len()).map(|_| Mutex::new(None)).collect();
+        std::thread::scope(|s| {
+            for _ in 0..env.workers {
+                s.spawn(|| loop {
+                    let j = next.fetch_add(1, Ordering::SeqCst);
+                    if j >= subset.len() {
+                        break;
+                    }
+                    *slots[j].lock().unwrap() = Some(one(&ldir, seed, subset[j], 1, 2, 2, 1));
+                });
+            }
+        });
+        crate::libtier::set_log_level(false);
+        for m in slots {
+            let mut r = m.into_inner().unwrap().unwrap();
+            if let Some((sig, detail, mut replay)) = r.violation.take() {
+                replay["trace_logging"] = json!(true);
+                r.violation = Some((format!("with-trace-logging:{sig}"), detail, replay));
+            }
+            r.logged_evals = r.evals;
+            results.push(r);
+        }
+    }
     let mut seen = BTreeSet::new();
     let mut violations = Vec::new();
     for r in &results {
@@ -692,6 +722,7 @@ pub fn run(env: &Env) -> i32 {
             ("cut run compared with the uncut run (findings of the passes)", results.iter().map(|r| r.relations_judged).sum::<usize>()),
             ("division without warning judged as a constant-divisor claim (cut runs)", results.iter().map(|r| r.division_claims).sum::<usize>()),
             ("definition with more than 256 clock reads (passes)", results.iter().map(|r| r.long_runs).sum::<usize>()),
+            ("schedule run with every log record built and formatted", results.iter().map(|r| r.logged_evals).sum::<usize>()),
             ("time box fired", results.iter().map(|r| r.stalls_fired).sum::<usize>()),
             ("a cut left fewer facts than the fixpoint", results.iter().map(|r| r.facts_lost_by_cut).sum::<usize>()),
             ("constant claim judged", results.iter().map(|r| r.value_claims).sum::<usize>()),
@@ -721,6 +752,13 @@ pub fn run(env: &Env) -> i32 {
 
 /// Re-run a recorded case (optionally with another source) and return the violation signature.
 fn replay_signature(v: &Value, src: &str) -> Option<String> {
+    crate::libtier::set_log_level(v["trace_logging"].as_bool().unwrap_or(false));
+    let r = replay_signature_inner(v, src);
+    crate::libtier::set_log_level(false);
+    r.map(|s| if v["trace_logging"].as_bool().unwrap_or(false) { format!("with-trace-logging:{s}") } else { s })
+}
+
+fn replay_signature_inner(v: &Value, src: &str) -> Option<String> {
     let key_hex = v["hashkey"].as_str().unwrap_or("");
     let mut key = [0u8; 16];
     for k in 0..16 {
